@@ -309,3 +309,55 @@ def check(ctx, max_degree=3):
                     okm = okm and all(x.eq(y) for x, y in zip(a[0] + a[1], b[1] + b[0])) and a[2].eq(b[2])
             r_mir.check(okm, adj, DG, "rule", d["line"], "duffy %s mirrored pairs" % adj, "regions are not test<->trial mirrored in consecutive pairs")
     return evals
+
+
+# ---------------------------------------------------------------- remaps
+
+REF = [(0, 0), (1, 0), (0, 1)]
+
+
+def _run_remap(ctx, fname, lit_args):
+    m = ctx.repo.mod(DG)
+    fn = m.fn(fname)
+    params = arg_names(fn)
+    symex.reset()
+    N = opaque_atom("#pts")
+    symex.RANGES["J"] = N
+    pts = Arr("P", "input", ndim=2, shape=[2, N])
+    it = Interp(m, fn, dict(zip(params, [pts] + list(lit_args))), {"globals": {"_np": Opq("_np", "module")}})
+    r = it.run()
+    if r is None:
+        raise AnalysisError("%s%s returns nothing" % (fname, tuple(lit_args)))
+    J = V.atom("J")
+    env = {"P⟨0,J⟩": V.atom("ξ0"), "P⟨1,J⟩": V.atom("ξ1")}
+    return [symex.tov(it.index(r, [c, J], fn)).subs(env) for c in range(2)]
+
+
+def remaps(ctx):
+    """remap_points_shared_edge(q, a, b) maps reference vertices (e0,e1,e2) -> (e_a, e_b, e_{3-a-b});
+    remap_points_shared_vertex(q, v) exchanges vertex 0 with vertex v (affine, other vertex fixed)."""
+    r = ctx.rule("REMAP-AFFINE", "the 6 shared-edge and 3 shared-vertex remaps are the stated affine maps of the reference triangle", 9)
+    m = ctx.repo.mod(DG)
+    x0, x1 = V.atom("ξ0"), V.atom("ξ1")
+
+    def affine(images):
+        # F(ξ) = e_img0 + ξ0 (e_img1 - e_img0) + ξ1 (e_img2 - e_img0)
+        v0, v1, v2 = (REF[i] for i in images)
+        return [V.const(v0[c]) + x0 * V.const(v1[c] - v0[c]) + x1 * V.const(v2[c] - v0[c]) for c in range(2)]
+
+    for a in range(3):
+        for b in range(3):
+            if a == b:
+                continue
+            got = _run_remap(ctx, "remap_points_shared_edge", [a, b])
+            want = affine((a, b, 3 - a - b))
+            r.check(all(g.eq(w) for g, w in zip(got, want)), "shared_edge(%d,%d)" % (a, b), DG, "remap_points_shared_edge",
+                    m.fn("remap_points_shared_edge").lineno, "remap edge (%d,%d)" % (a, b),
+                    "maps the reference point to %s, expected %s" % (got, want))
+    for v in range(3):
+        got = _run_remap(ctx, "remap_points_shared_vertex", [v])
+        images = [0, 1, 2]
+        images[0], images[v] = images[v], images[0]
+        want = affine(tuple(images))
+        r.check(all(g.eq(w) for g, w in zip(got, want)), "shared_vertex(%d)" % v, DG, "remap_points_shared_vertex",
+                m.fn("remap_points_shared_vertex").lineno, "remap vertex %d" % v, "maps the reference point to %s, expected %s" % (got, want))
